@@ -109,9 +109,18 @@ impl BackwardEngine {
         let mut goal = QueryParser::parse(query_str)
             .map_err(|e| crate::errors::RuleEngineError::ParseError { message: e })?;
 
+        // Memoised verdicts are only valid for the facts they were computed on: key them by
+        // the query AND a digest of the facts, and bypass the cache when an external RETE
+        // engine (whose working memory the key cannot see) takes part in the proof.
+        let memo_key = if self.config.enable_memoization && rete_engine.is_none() {
+            Some(Self::memo_key(query_str, facts))
+        } else {
+            None
+        };
+
         // Check cache if memoization enabled
-        if self.config.enable_memoization {
-            if let Some(cached) = self.goal_manager.is_cached(query_str) {
+        if let Some(ref key) = memo_key {
+            if let Some(cached) = self.goal_manager.is_cached(key) {
                 return Ok(if cached {
                     QueryResult::success(
                         goal.bindings.to_map(), // Convert Bindings to HashMap
@@ -157,9 +166,8 @@ impl BackwardEngine {
         };
 
         // Cache result if enabled
-        if self.config.enable_memoization {
-            self.goal_manager
-                .cache_result(query_str.to_string(), search_result.success);
+        if let Some(key) = memo_key {
+            self.goal_manager.cache_result(key, search_result.success);
         }
 
         // Build query result
@@ -181,6 +189,18 @@ impl BackwardEngine {
         } else {
             QueryResult::failure(self.find_missing_facts(&goal), stats)
         })
+    }
+
+    /// Memoisation key: the query text plus an order-independent digest of the facts the
+    /// verdict is computed on (a verdict cached for other facts must never be reused).
+    fn memo_key(query_str: &str, facts: &Facts) -> String {
+        let mut entries: Vec<String> = facts
+            .get_all_facts()
+            .iter()
+            .map(|(k, v)| format!("{}={:?}", k, v))
+            .collect();
+        entries.sort();
+        format!("{}|{}", query_str, entries.join(";"))
     }
 
     /// Find all candidate rules that could prove a goal
